@@ -36,7 +36,7 @@ CHECKS = {
    note="Unknown (clobbered) addresses admit either outcome; aliasing between different register names is not claimed."),
  "C14": dict(
    category="model_checking",
-   text="MC_LoopDeps invariant RotationInvariant (declarative cycles of every rotation, mapped back, equal the original's) on all kernels <= 3 instructions; on the real code generated kernels and every shipped "
+   text="MC_LoopDeps invariant RotationInvariant (declarative cycles of every rotation, mapped back, equal the original's) on all kernels <= 3 instructions; on the real code generated kernels (2-8 lines, and 50-57 lines through the multi-process search) and every shipped "
         "kernel are analysed at offset 0 and at rotation offsets (all offsets in thorough) and TLC validates that the rotated LCD set mapped back (members, latencies) and the LCD figure equal what it computes "
         "from the unrotated observed graph.",
    design_ref="5/C14", technique="TLA+ rotation theorem checked by TLC + metamorphic runs of the real code validated by TLC",
@@ -53,7 +53,8 @@ CHECKS = {
  "C18": dict(
    category="model_checking",
    text="TLC enumerates all 585 call histories of length <= 3 over 8 request kinds and checks that each report is a function of the request and shared state is unchanged (with the deviations model-reuse + in-place mutation it "
-        "produces the history <rmw, rmw>). Every history is replayed in one interpreter state (fork tree) through osaca.osaca.run and compared element-wise with fresh-process reports; seeded histories <= 12 are validated by Trace_Session.",
+        "produces the history <rmw, rmw>). Every history is replayed in one interpreter state (fork tree) through osaca.osaca.run and compared element-wise with fresh-process reports; seeded histories <= 12 are validated by Trace_Session, among them aged processes (step Work: more CPU and wall time than the search limit before the analyses; "
+        "negative control MC_Session_procclock).",
    design_ref="5/C18, 10.3", technique="TLA+ session spec + TLC enumeration of all histories + fork-tree replay in one interpreter + batch trace validation",
    note="TLC acts mainly as enumerator/evaluator here (DESIGN section 8); a fork() continuation is taken to be the same interpreter state."),
 
@@ -97,7 +98,7 @@ CHECKS = {
    category="model_checking",
    text="TLC model-checks PortSched (the greedy balancer as a state machine: Uniform, BeginPass, Move, Retire, EndPass with per-micro-op budgets carried across passes) on all kernels <= 2 over single- and two-micro-op forms on every pair of subsets of 3 ports: "
         "FeasibleAll (Hall condition over unions of micro-op port sets) and TotalsAreColumnSums are invariants; the configuration with the former deviation CapsResetPerPass exhibits the two-pass counterexample. Every emitted kernel is replayed on the code through "
-        "a synthetic YAML model (rows match the Level-B terminal rows exactly); snapshots of random synthetic models (2-6 ports, multi-character names, alternatives) and shipped models x corpus kernels at five stages (uniform, pass 1, pass 2, API and dict/CLI) are validated by TLC (Trace_Port); whole-run traces (Osaca.tla) check totals = column sums.",
+        "a synthetic YAML model (rows match the Level-B terminal rows exactly); snapshots of random synthetic models (2-6 ports, multi-character names incl. names that concatenate two one-character names, alternatives) and shipped models x corpus kernels at five stages (uniform, pass 1, pass 2, API and dict/CLI) are validated by TLC (Trace_Port); whole-run traces (Osaca.tla) check totals = column sums.",
    design_ref="5/C01, 10.6", technique="TLA+ Level-A feasibility (Hall) + Level-B balancer state machine, TLC exhaustive with terminal-state emission, replay, batch trace validation",
    note="Trusts harness/port_common.py rendering and projection onto the 1/12000 lattice; Level B does not model PickAlternative (alternatives are covered at Level A only)."),
  "C02": dict(
